@@ -120,6 +120,8 @@ def _stmt_matches(st: ast.stmt, old_n: str) -> bool:
         return False
     if txt == old_n:
         return True
+    if isinstance(st, ast.FunctionDef) and old_n.startswith("def ") and old_n.endswith("..."):
+        return old_n.split("(")[0] == f"def {st.name}"
     # compound statements: match on the header line only
     return isinstance(st, (ast.If, ast.For, ast.While, ast.With, ast.FunctionDef, ast.ClassDef, ast.Try)) and txt.split("\n")[0] == old_n.split("\n")[0] and old_n.endswith("...")
 
